@@ -12,6 +12,7 @@ import (
 	"crypto/tls"
 	"crypto/x509"
 	"crypto/x509/pkix"
+	"encoding/base64"
 	"encoding/pem"
 	"fmt"
 	"io"
@@ -632,7 +633,57 @@ func muteSASL(w *world.World, dir string, rep *hx.Report, skip bool) func() {
 			}
 		}()
 	}
+	// an authentication in flight against a backend that accepts the connection and then says nothing (a hung process behind a
+	// TCP balancer), over https: the request is bounded like any other; the client has gone away meanwhile. Judged at the end,
+	// like the silent clients: by then the bound (10 s) has long passed, and Shutdown returns
+	stall, _ := net.Listen("tcp", "127.0.0.1:0")
+	var held []net.Conn
+	var heldMu sync.Mutex
+	go func() {
+		for {
+			c, err := stall.Accept()
+			if err != nil {
+				return
+			}
+			heldMu.Lock()
+			held = append(held, c)
+			heldMu.Unlock()
+		}
+	}()
+	sock2 := dir + "/sasl-stalled.sock"
+	srv2 := sasl.NewServer(sock2, "", "https://"+stall.Addr().String()+"/auth", "example.com")
+	go srv2.Start()
+	for i := 0; i < 100; i++ {
+		if c, err := net.Dial("unix", sock2); err == nil {
+			io.WriteString(c, "VERSION\t1\t2\nCPID\t1\nAUTH\t1\tPLAIN\tservice=smtp\tresp="+base64.StdEncoding.EncodeToString([]byte("\x00stalled@example.com\x00pw"))+"\n")
+			time.Sleep(300 * time.Millisecond)
+			c.Close()
+			break
+		}
+		time.Sleep(10 * time.Millisecond)
+	}
 	return func() {
+		{
+			id := "sasl/authentication-in-flight/backend-stalls-in-the-tls-handshake"
+			rep.Case(id, true)
+			if d := 13*time.Second - time.Since(t0); d > 0 {
+				time.Sleep(d)
+			}
+			sd := make(chan error, 1)
+			go func() { sd <- srv2.Shutdown() }()
+			select {
+			case <-sd:
+				rep.Hit("sasl-shutdown:after-stalled-backend")
+			case <-time.After(3 * time.Second):
+				rep.Violate("impl-violation", "Shutdown returns / a session ends within a bounded time (Props.C20)", fmt.Sprintf("%v after a client sent AUTH and went away, with an https authentication backend that accepts the connection and never answers, the session still waits for it: sasl.Server.Shutdown has not returned within 3 s", time.Since(t0).Round(time.Second)), []string{"scenario " + id})
+			}
+			stall.Close()
+			heldMu.Lock()
+			for _, c := range held {
+				c.Close()
+			}
+			heldMu.Unlock()
+		}
 		for _, m := range ms {
 			id := "sasl/silent/" + m.what
 			rep.Case(id, true)
